@@ -8,6 +8,14 @@ REQUIRED = [P + n for n in [
     # pixman_fill1_line and the C fills
     "fill1Line_exact", "fill1_exact", "fill8_exact", "fill16_exact", "fill32_exact",
     "fastPathFill_exact", "fastPathFill_unsupported",
+    # SIMD range programs: tiling, alignment, whole pixels; executed result
+    "sse2FillRow_tiles", "mmxFillRow_tiles", "sse2BltRow_tiles", "mmxBltRow_tiles", "fillRow_whole_pixels",
+    "simdFill_exact", "sse2Fill_exact", "mmxFill_exact", "simdFill_unsupported", "simdBlt_declines",
+    # delegation chain
+    "implFill_false_unchanged", "implementationFill_false_unchanged", "implementationFill_exact",
+    "pixmanFill_true_exact", "pixmanFill_general_declines", "implementationBlt_false_unchanged",
+    # fill_boxes
+    "reduceOp_cases", "rectsToBoxes_exact",
 ]]
 
 CONFIGS = [(0, ""), (1, "ssse3 sse2"), (2, "ssse3 sse2 mmx"), (3, "fast mmx sse2 ssse3")]
@@ -90,7 +98,7 @@ def signature(kind, line, text):
         return f"{op}|stream"
     if op in ("boxes", "rects"):
         if "[far-origin" in text:
-            return "fill_boxes|direct-fill shortcut draws a box whose origin is beyond 16 bit of its visible part, pixman_image_composite32 drops it"
+            return "fill_boxes|far-origin|compositing path omits a box whose visible part is more than 32767 px right of or below its origin"
         try:
             fmt, o = int(t[3]), int(t[10])
         except (ValueError, IndexError):
